@@ -279,3 +279,36 @@ def report_settled(chk, results):
                  % (len(dis), ", ".join(sorted({k for x in dis for k in x["exact_stage"]})), (dis[0]["example"] or "")[:200], dis[0]["runs"]))
     if con:
         chk.note("%d scenario(s): exact-stage findings confirmed with the real random source" % len(con))
+
+
+def prime_same_object(G, fn):
+    """`fn(G)` is called once while the SAME networkx graph object temporarily has another structure with the same
+    numbers of nodes and edges (one edge moved); the structure is then restored in place.  Anything an implementation
+    remembers per graph object (a cache validated by object identity or by node/edge counts) is stale afterwards.
+    Returns True if the priming call was made.  The adjacency ORDER of the moved edge's endpoints may change."""
+    try:
+        nodes = list(G.nodes())
+        edges = list(G.edges(data=True))
+        if len(nodes) < 3 or not edges:
+            return False
+        present = set()
+        for (a, b, d) in edges:
+            present.add((a, b))
+            if not G.is_directed():
+                present.add((b, a))
+        free = [(c, d) for c in nodes for d in nodes if c != d and (c, d) not in present]
+        if not free:
+            return False
+        a, b, data = edges[0]
+        c, d = free[len(free) // 2]
+        G.remove_edge(a, b)
+        G.add_edge(c, d, **dict(data))
+        try:
+            fn(G)
+        except Exception:
+            pass
+        G.remove_edge(c, d)
+        G.add_edge(a, b, **dict(data))
+        return True
+    except Exception:
+        return False
